@@ -10,7 +10,21 @@ pub enum SrcClass {
     ZeroRuns,
     BlockRepetitive,
     Zeros,
+    /// Image-like: padding holes of 0x00 / 0xff / 0x80 / another constant between payload
+    /// segments — large level shifts within one (large) hash window.
+    LevelShift,
 }
+
+/// SRC_CLASSES plus the classes only the chunker checks draw from.
+pub const SRC_CLASSES_EXT: [SrcClass; 7] = [
+    SrcClass::Random,
+    SrcClass::Constant,
+    SrcClass::LowEntropy,
+    SrcClass::ZeroRuns,
+    SrcClass::BlockRepetitive,
+    SrcClass::Zeros,
+    SrcClass::LevelShift,
+];
 
 pub const SRC_CLASSES: [SrcClass; 6] = [
     SrcClass::Random,
@@ -41,6 +55,24 @@ pub fn gen_source(rng: &mut Rng, class: SrcClass, len: usize) -> Vec<u8> {
                     v.extend(std::iter::repeat(0u8).take(run));
                 } else {
                     v.extend(rng.bytes(run));
+                }
+            }
+            v.truncate(len);
+            v
+        }
+        SrcClass::LevelShift => {
+            let mut v = Vec::with_capacity(len);
+            while v.len() < len {
+                let run = rng.urange(1 + len / 40, 64 + len / 6);
+                match rng.below(6) {
+                    0 => v.extend(std::iter::repeat(0u8).take(run)),
+                    1 | 2 => v.extend(std::iter::repeat(0xffu8).take(run)),
+                    3 => v.extend(std::iter::repeat(0x80u8).take(run)),
+                    4 => {
+                        let b = rng.below(256) as u8;
+                        v.extend(std::iter::repeat(b).take(run))
+                    }
+                    _ => v.extend(rng.bytes(run)),
                 }
             }
             v.truncate(len);
@@ -87,6 +119,22 @@ pub fn gen_small_rolling(rng: &mut Rng, algo: Algo) -> Cfg {
         max,
         bits,
     }
+}
+
+/// A rolling configuration with a hash window of several KiB (the CLI accepts e.g.
+/// `--rolling-window-size 10KiB`): sums over such a window exceed 32 bits.
+pub fn gen_bigwindow_cfg(rng: &mut Rng) -> Cfg {
+    let algo = if rng.chance(2, 3) { Algo::RollSum } else { Algo::BuzHash };
+    let window = rng.urange(3000, 20_000);
+    let bits = rng.range(9, 13) as u32;
+    let max = window + rng.urange(1, 100_000);
+    let min = match rng.below(4) {
+        0 => 0,
+        1 => window.min(max),
+        2 => (window + rng.urange(1, 5000)).min(max),
+        _ => rng.urange(0, max.min(30_000)),
+    };
+    Cfg { algo, window, min, max, bits }
 }
 
 pub fn gen_small_cfg(rng: &mut Rng) -> Cfg {
